@@ -110,6 +110,10 @@ type slot struct {
 // journal write latencies used by the concurrent histories
 var diskDelays = []time.Duration{0, 200 * time.Microsecond, time.Millisecond, 3 * time.Millisecond}
 
+// proposal histories: up to the latency of a slow disk sync, longer than a
+// reader needs to decode the proposal it found
+var diskDelaysProposal = []time.Duration{0, time.Millisecond, 10 * time.Millisecond, 40 * time.Millisecond}
+
 func (g *rig) slots(n int) chan *slot {
 	ch := make(chan *slot, n)
 	for i := 0; i < n; i++ {
@@ -264,6 +268,7 @@ func runHistory(r *vlib.Run, kind string, hi int, tg target, nclients, nops int,
 	type planned struct {
 		in      regIn
 		barrier *barrier
+		spin    int // > 0: repeat the read (every 200us) until it finds something, at most so often
 	}
 	plans := make([][]planned, nclients)
 	per := nops / nclients
@@ -274,14 +279,35 @@ func runHistory(r *vlib.Run, kind string, hi int, tg target, nclients, nops int,
 	if kind == "proposal" {
 		gets = []string{"get", "getbypoint"}
 	}
+	// proposal histories, two in three: only two clients write in a burst,
+	// the others poll the key by hash resp. by point (every 200us until it is
+	// found), so that reads by both ways fall between the writes a SetProposal
+	// does and right after them.
+	pollers := kind == "proposal" && nclients >= 3 && rng.Intn(3) > 0
+	if pollers {
+		r.Count("histories_with_polling_readers", 1)
+	}
 	for k := 0; k < tg.nkeys(); k++ {
 		b := &barrier{n: int32(nclients), ch: make(chan struct{})}
 		for c := range plans {
 			in := regIn{Op: "set", Key: k, Val: labels[rng.Intn(len(labels))]}
-			if rng.Intn(6) == 0 {
+			spin := 0
+			switch {
+			case pollers && c >= 2 && c%2 == 0:
+				in, spin = regIn{Op: "get", Key: k}, 400
+			case pollers && c >= 2:
+				in, spin = regIn{Op: "getbypoint", Key: k}, 400
+			case rng.Intn(6) == 0:
 				in = regIn{Op: gets[rng.Intn(len(gets))], Key: k} // a reader inside the burst
 			}
-			plans[c] = append(plans[c], planned{in: in, barrier: b})
+			plans[c] = append(plans[c], planned{in: in, barrier: b, spin: spin})
+			if spin > 0 { // and once more the other way round, right after it was found
+				other := "get"
+				if in.Op == "get" {
+					other = "getbypoint"
+				}
+				plans[c] = append(plans[c], planned{in: regIn{Op: other, Key: k}})
+			}
 		}
 	}
 	for c := range plans {
@@ -310,24 +336,30 @@ func runHistory(r *vlib.Run, kind string, hi int, tg target, nclients, nops int,
 				if p.barrier != nil {
 					p.barrier.wait()
 				}
-				var out regOut
-				call := time.Since(t0).Nanoseconds()
-				switch p.in.Op {
-				case "set":
-					ok, err := tg.set(p.in.Key, strings.Index("ABC", p.in.Val))
-					out.OK = ok
-					if err != nil {
-						out.Err = err.Error()
+				for n := 0; ; n++ {
+					var out regOut
+					call := time.Since(t0).Nanoseconds()
+					switch p.in.Op {
+					case "set":
+						ok, err := tg.set(p.in.Key, strings.Index("ABC", p.in.Val))
+						out.OK = ok
+						if err != nil {
+							out.Err = err.Error()
+						}
+					default:
+						found, label, err := tg.get(p.in.Key, p.in.Op)
+						out.Found, out.Val = found, label
+						if err != nil {
+							out.Err = err.Error()
+						}
 					}
-				default:
-					found, label, err := tg.get(p.in.Key, p.in.Op)
-					out.Found, out.Val = found, label
-					if err != nil {
-						out.Err = err.Error()
+					ret := time.Since(t0).Nanoseconds()
+					results[c] = append(results[c], porcupine.Operation{ClientId: c, Input: p.in, Call: call, Output: out, Return: ret})
+					if n+1 >= p.spin || out.Found || out.Err != "" {
+						break
 					}
+					time.Sleep(200 * time.Microsecond)
 				}
-				ret := time.Since(t0).Nanoseconds()
-				results[c] = append(results[c], porcupine.Operation{ClientId: c, Input: p.in, Call: call, Output: out, Return: ret})
 			}
 		}(c)
 	}
@@ -535,7 +567,7 @@ func (p *proposalTarget) get(k int, how string) (bool, string, error) {
 func TestC24(t *testing.T) {
 	r := vlib.Start(t, "C24", vlib.LevelExploration)
 	defer r.Finish()
-	r.SetRule("concurrent part: history = 1..8 clients issuing SetBallot/Ballot (resp. SetProposal/Proposal/ProposalByPoint) calls on 2..3 keys of one real TempPool (leveldb on goleveldb MemStorage whose journal writes take 0 / 0.2 / 1 / 3 ms, the latency a disk puts between a write call and its visibility), 3 different candidate values per key (ballots: different facts and signers for one (stage point, suffrage-confirm flag); proposals: one proposal fact signed by 3 keys), all clients writing to each key in turn at once from a barrier (one burst per key) and then <= 12 random reads and writes, optionally with a goroutine running the cleanup steps (keys within the protected depth); each history is checked per key with porcupine against a write-once register; distinct = fingerprint of the observed order of call/return events, counted only when calls overlapped. sequential part: case = random entries over a window of heights, cleanup run, survivors and removed entries judged by the depth rule; distinct = (kind, heights relative to newest)")
+	r.SetRule("concurrent part: history = 1..8 clients issuing SetBallot/Ballot (resp. SetProposal/Proposal/ProposalByPoint) calls on 2..3 keys of one real TempPool (leveldb on goleveldb MemStorage whose journal writes take 0 / 0.2 / 1 / 3 ms, the latency a disk puts between a write call and its visibility), 3 different candidate values per key (ballots: different facts and signers for one (stage point, suffrage-confirm flag); proposals: one proposal fact signed by 3 keys), all clients writing to each key in turn at once from a barrier (one burst per key) and then <= 12 random reads and writes, optionally with a goroutine running the cleanup steps (keys within the protected depth); each history is checked per key with porcupine against a write-once register; distinct = fingerprint of the observed order of call/return events, counted only when calls overlapped. fault part (sequential, hook H3 of storage/leveldb): for every write boundary k of one SetProposal / SetBallot the storage lets k writes through and fails the rest, then works again; by-hash and by-point lookups must agree, a repeated Set and a Set of another value must keep the first writer; distinct = (kind, k, whether the stopped Set left its value). cleanup part (sequential): case = random entries over a window of heights, cleanup run, survivors and removed entries judged by the depth rule; distinct = (kind, heights relative to newest)")
 	r.Assume("two proposals with different facts for one (point, proposer, previous block) are not generated: the statement fixes the first proposal per proposal fact and the lookup by point to 'that same proposal', which presumes one fact per (point, proposer, previous block)")
 	r.Assume("cleanup is demanded only what the statement says: an entry it removed lies at least <depth> heights below the newest height stored in that pool; entries above that line are still readable and unchanged; how much of the older part goes is not judged")
 
@@ -560,12 +592,15 @@ func TestC24(t *testing.T) {
 		})
 		r.Set("seconds_ballot_histories", int(time.Since(t0).Seconds()))
 		t0 = time.Now()
-		vlib.Parallel(nh, workers, func(hi int) {
+		vlib.Parallel(r.N(30, 240), workers, func(hi int) {
 			sl := <-slots
 			proposalHistory(r, g, sl, hi)
 			slots <- sl
 		})
 		r.Set("seconds_proposal_histories", int(time.Since(t0).Seconds()))
+		t0 = time.Now()
+		faultPhase(r, g)
+		r.Set("seconds_fault_phase", int(time.Since(t0).Seconds()))
 		t0 = time.Now()
 		defer func() { r.Set("seconds_cleanup_cases", int(time.Since(t0).Seconds())) }()
 		nc := r.N(8, 60)
@@ -653,7 +688,7 @@ func ballotHistory(r *vlib.Run, g *rig, sl *slot, hi int) {
 func proposalHistory(r *vlib.Run, g *rig, sl *slot, hi int) {
 	rng := r.Rand(24, 3, hi)
 	pool := sl.pool
-	delay := diskDelays[rng.Intn(len(diskDelays))]
+	delay := diskDelaysProposal[rng.Intn(len(diskDelaysProposal))]
 	sl.disk.delay.Store(0)
 	defer func() {
 		r.Count("slow_journal_writes", int(sl.disk.waits.Swap(0)))
@@ -859,4 +894,213 @@ func cleanupCase(r *vlib.Run, g *rig, pool *isaacdatabase.TempPool, ci, bdepth, 
 	if ci < 2 {
 		r.Sample(map[string]any{"kind": "cleanup", "case": ci, "heights_below_newest": rel, "removed": removed, "reported_removed": nb + np})
 	}
+}
+
+// ---- sequential fault phase ----------------------------------------------------
+
+// faultPhase: for every write boundary k of one SetProposal / SetBallot call
+// the storage lets the first k writes through and fails every later one (hook
+// H3, leveldbstorage.VerifFaultArm: the process stopped at that boundary);
+// then the storage works again and the pool is judged: what is found by hash
+// is found by (point, proposer, previous block) and is the same proposal, a
+// repeated Set of the same value and a Set of another value keep the first
+// writer.
+func faultPhase(r *vlib.Run, g *rig) {
+	st, err := leveldbstorage.NewStorage(ldbstorage.NewMemStorage(), nil)
+	must(err)
+	pool, err := isaacdatabase.NewTempPool(st, g.bt.Encs, g.bt.Enc, 0)
+	must(err)
+	defer func() {
+		leveldbstorage.VerifFaultReset()
+		_ = pool.DeepClose()
+	}()
+
+	h := int64(100)
+	newProposal := func() (isaac.ProposalFact, base.ProposalSignFact, base.ProposalSignFact) {
+		h++
+		fact := isaac.NewProposalFact(base.RawPoint(h, 0), g.nodes[0].Address(), valuehash.RandomSHA256(), [][2]util.Hash{{valuehash.RandomSHA256(), valuehash.RandomSHA256()}})
+		a, b := isaac.NewProposalSignFact(fact), isaac.NewProposalSignFact(fact)
+		must(a.Sign(g.nodes[0].Privatekey(), g.networkID))
+		must(b.Sign(g.nodes[1].Privatekey(), g.networkID))
+		return fact, a, b
+	}
+
+	// how many write boundaries does one call have?
+	leveldbstorage.VerifFaultArm(st, -1)
+	_, a0, _ := newProposal()
+	if ok, err := pool.SetProposal(a0); err != nil || !ok {
+		r.Violation("fault:proposal:plain-set-not-stored", fmt.Sprintf("SetProposal = %v, %v without fault", ok, err), nil)
+		return
+	}
+	pw := len(leveldbstorage.VerifFaultReset())
+	r.Set("write_boundaries_of_one_SetProposal", pw)
+
+	for rep := 0; rep < r.N(1, 6); rep++ {
+		for k := 0; k <= pw; k++ {
+			fact, a, b := newProposal()
+			w := map[string]any{"kind": "proposal", "writes_let_through": k, "write_boundaries": pw, "point": fact.Point().String()}
+			read := func() (string, string, bool) {
+				byHash, byPoint := "not found", "not found"
+				pr, found, err := pool.Proposal(fact.Hash())
+				pr2, found2, err2 := pool.ProposalByPoint(fact.Point(), fact.Proposer(), fact.PreviousBlock())
+				if err != nil || err2 != nil {
+					r.Violation("fault:proposal:read-error", fmt.Sprint(err, err2), w)
+					return "", "", false
+				}
+				name := func(pr base.ProposalSignFact) string {
+					switch proposalID(pr) {
+					case proposalID(a):
+						return "A"
+					case proposalID(b):
+						return "B"
+					}
+					return "?"
+				}
+				if found {
+					byHash = name(pr)
+				}
+				if found2 {
+					byPoint = name(pr2)
+				}
+				return byHash, byPoint, true
+			}
+
+			leveldbstorage.VerifFaultArm(st, k)
+			ok0, err0 := pool.SetProposal(a)
+			log := leveldbstorage.VerifFaultReset()
+			failed := 0
+			for _, e := range log {
+				if e.Failed {
+					failed++
+				}
+			}
+			r.Count("fault_cases", 1)
+			r.Count("fault_injected_write_failures", failed)
+			w["faulted_set"] = fmt.Sprintf("SetProposal(A) = %v, %v", ok0, err0)
+			if ok0 && err0 == nil && failed > 0 {
+				r.Violation("fault:proposal:set-true-although-a-write-failed", fmt.Sprintf("SetProposal = true although %d write(s) failed", failed), w)
+			}
+
+			byHash, byPoint, okr := read()
+			if !okr {
+				continue
+			}
+			w["after_fault"] = map[string]string{"by_hash": byHash, "by_point": byPoint}
+			if byHash != byPoint {
+				r.Violation(fmt.Sprintf("fault:proposal:by-hash-and-by-point-disagree-after-stop:by-hash=%s:by-point=%s", found01(byHash), found01(byPoint)),
+					fmt.Sprintf("process stopped after %d of %d writes of SetProposal: Proposal(fact) = %s, ProposalByPoint = %s", k, pw, byHash, byPoint), w)
+			}
+			stored := byHash != "not found"
+
+			ok1, err1 := pool.SetProposal(a) // the same Set again
+			ok2, err2 := pool.SetProposal(b) // another proposal of the fact
+			w["retries"] = fmt.Sprintf("SetProposal(A) = %v, %v; SetProposal(B) = %v, %v", ok1, err1, ok2, err2)
+			if err1 != nil || err2 != nil {
+				r.Violation("fault:proposal:retry-error", fmt.Sprint(err1, err2), w)
+				continue
+			}
+			if ok1 == stored {
+				r.Violation(fmt.Sprintf("fault:proposal:retry-of-same-set:stored=%v:returned=%v", stored, ok1), fmt.Sprintf("after the stop Proposal(fact) = %s; SetProposal(A) again = %v", byHash, ok1), w)
+			}
+			if ok2 {
+				r.Violation("fault:proposal:second-writer-stored-true", "SetProposal(B) = true after A", w)
+			}
+			byHash, byPoint, okr = read()
+			if !okr {
+				continue
+			}
+			w["finally"] = map[string]string{"by_hash": byHash, "by_point": byPoint}
+			if byHash != "A" || byPoint != "A" {
+				r.Violation(fmt.Sprintf("fault:proposal:first-proposal-not-returned-after-retry:by-hash=%s:by-point=%s", byHash, found01(byPoint)),
+					fmt.Sprintf("stop after %d of %d writes, then SetProposal(A), SetProposal(B): Proposal(fact) = %s, ProposalByPoint = %s (expected A, A)", k, pw, byHash, byPoint), w)
+			}
+			r.Case(fmt.Sprintf("fault/proposal/k=%d/stored=%v", k, stored))
+			if rep == 0 {
+				r.Sample(w)
+			}
+		}
+	}
+
+	// ballots
+	leveldbstorage.VerifFaultArm(st, -1)
+	h++
+	if ok, err := pool.SetBallot(g.ballot(ballotKey{point: base.RawPoint(h, 0), stage: base.StageINIT}, g.nodes[0])); err != nil || !ok {
+		r.Violation("fault:ballot:plain-set-not-stored", fmt.Sprintf("SetBallot = %v, %v without fault", ok, err), nil)
+		return
+	}
+	bw := len(leveldbstorage.VerifFaultReset())
+	r.Set("write_boundaries_of_one_SetBallot", bw)
+	kinds := []ballotKey{{stage: base.StageINIT}, {stage: base.StageACCEPT}, {stage: base.StageINIT, sc: true}}
+	for rep := 0; rep < r.N(1, 6); rep++ {
+		for _, kd := range kinds[:r.N(2, 3)] {
+			for k := 0; k <= bw; k++ {
+				h++
+				key := ballotKey{point: base.RawPoint(h, uint64(rep%2)), stage: kd.stage, sc: kd.sc}
+				a, b := g.ballot(key, g.nodes[0]), g.ballot(key, g.nodes[1])
+				w := map[string]any{"kind": "ballot", "key": key.String(), "writes_let_through": k, "write_boundaries": bw}
+				read := func() (string, bool) {
+					bl, found, err := pool.Ballot(key.point, key.stage, key.sc)
+					switch {
+					case err != nil:
+						r.Violation("fault:ballot:read-error", err.Error(), w)
+						return "", false
+					case !found:
+						return "not found", true
+					case ballotID(bl) == ballotID(a):
+						return "A", true
+					case ballotID(bl) == ballotID(b):
+						return "B", true
+					}
+					return "?", true
+				}
+				leveldbstorage.VerifFaultArm(st, k)
+				ok0, err0 := pool.SetBallot(a)
+				log := leveldbstorage.VerifFaultReset()
+				failed := 0
+				for _, e := range log {
+					if e.Failed {
+						failed++
+					}
+				}
+				r.Count("fault_cases", 1)
+				r.Count("fault_injected_write_failures", failed)
+				w["faulted_set"] = fmt.Sprintf("SetBallot(A) = %v, %v", ok0, err0)
+				if ok0 && err0 == nil && failed > 0 {
+					r.Violation("fault:ballot:set-true-although-a-write-failed", "SetBallot = true although a write failed", w)
+				}
+				v, okr := read()
+				if !okr {
+					continue
+				}
+				stored := v != "not found"
+				if stored && v != "A" {
+					r.Violation("fault:ballot:other-ballot-after-stop", "Ballot() = "+v, w)
+				}
+				ok1, err1 := pool.SetBallot(a)
+				ok2, err2 := pool.SetBallot(b)
+				w["retries"] = fmt.Sprintf("SetBallot(A) = %v, %v; SetBallot(B) = %v, %v", ok1, err1, ok2, err2)
+				if err1 != nil || err2 != nil {
+					r.Violation("fault:ballot:retry-error", fmt.Sprint(err1, err2), w)
+					continue
+				}
+				if ok1 == stored {
+					r.Violation(fmt.Sprintf("fault:ballot:retry-of-same-set:stored=%v:returned=%v", stored, ok1), fmt.Sprintf("after the stop Ballot() = %s; SetBallot(A) again = %v", v, ok1), w)
+				}
+				if ok2 {
+					r.Violation("fault:ballot:second-writer-stored-true", "SetBallot(B) = true after A", w)
+				}
+				if v, okr = read(); okr && v != "A" {
+					r.Violation("fault:ballot:first-ballot-not-returned-after-retry", "Ballot() = "+v+" (expected A)", w)
+				}
+				r.Case(fmt.Sprintf("fault/ballot/%s/sc=%v/k=%d/stored=%v", key.stage, key.sc, k, stored))
+			}
+		}
+	}
+}
+
+func found01(v string) string {
+	if v == "not found" {
+		return "notfound"
+	}
+	return "found"
 }
